@@ -69,6 +69,8 @@ pub trait RollingValidCmp<T: IsNone>: Vec1View<T> {
                     }
                     let out = if n >= min_periods {
                         min_idx
+                            // the index is meaningless if the window holds no valid value
+                            .filter(|_| min.is_some())
                             .map(|min_idx| (min_idx - start.unwrap_or(0) + 1).f64())
                             .unwrap_or(f64::NAN)
                             .cast()
@@ -223,6 +225,8 @@ pub trait RollingValidCmp<T: IsNone>: Vec1View<T> {
                     }
                     let out = if n >= min_periods {
                         max_idx
+                            // the index is meaningless if the window holds no valid value
+                            .filter(|_| max.is_some())
                             .map(|max_idx| (max_idx - start.unwrap_or(0) + 1).f64())
                             .unwrap_or(f64::NAN)
                             .cast()
